@@ -10,6 +10,9 @@
 // ops:     <op><queue>   op =
 //   a async_f   b barrier_async_f   g group_async_f   s sync_f   B barrier_sync_f
 //   w async_and_wait_f   A apply(2)   3 apply(3)
+//   h sync_f whose body stays in flight until no other thread can run (quiescence), or returns at once if every other
+//     client thread has already returned from all of its submissions (like hold;, for this one item, on any thread,
+//     and safe when another thread's sync item can end up queued behind a barrier that waits for this one)
 //   k async of a block object created with DISPATCH_BLOCK_BARRIER
 //   p async_f then wait (scheduler-level) until that item has finished ("ping-pong")
 //   U suspend  R resume  (C06)   z the client thread sleeps 1 virtual ms (queue index ignored)
